@@ -86,8 +86,9 @@ def fold_separation(ctx, obs, q, rule='FOLD-SEP'):
         lt, rt = call_tokens(ls, '.subset_obs'), call_tokens(rs, '.subset_obs')
         comp_tok = {c.token for c in comp_calls}
         fold_tok = {c.token for c in fold_calls}
-        if not (lt | rt) & comp_tok:
-            continue    # not a leave-one-out kernel (per-fold arm)
+        comp_loops = {id(l) for c in comp_calls for l in _enclosing_loops(f.node, c.node)}
+        if not ({id(l) for l in _enclosing_loops(f.node, node)} & comp_loops):
+            continue    # not inside a leave-one-fold-out loop (per-fold arm)
         ok_sep = bool(lt) and bool(rt) and not (lt & rt)
         obs.check(ok_sep, rule, q, f'{desc}: the two kernel operands derive from different fold selections',
                   f'operands of `{norm(node)[:90]}` derive from selections {sorted(lt)} and {sorted(rt)}: a fold '
@@ -193,6 +194,11 @@ def _distinct_by_loops(fn, call, i, j):
     if i in loops and j in loops:
         return False
     return None
+
+
+def _enclosing_loops(root, target):
+    p = _path_to(root, target) or []
+    return [n for n in p if isinstance(n, (ast.For, ast.While))]
 
 
 def _path_to(root, target):
